@@ -64,24 +64,31 @@ func refPkgs() []string {
 	return []string{core.RefMod + "/core/vm", core.RefMod + "/trie", core.RefMod + "/rlp", core.RefMod + "/core/state"}
 }
 
-// runProperty loads and runs one property's rules. Panics in the analyser are failures (exit 2).
-func runProperty(prop, tier, repo string, overlay map[string][]byte, goarch string) (rep *core.Report, p *core.Prog, err error) {
-	fn, ok := rules.Registry[prop]
-	if !ok {
-		return nil, nil, fmt.Errorf("no rule set registered for %s", prop)
+// loadFor loads the program once for a set of properties.
+func loadFor(props []string, repo string, overlay map[string][]byte, goarch string) (*core.Prog, error) {
+	o := core.LoadOpts{Repo: repo, Overlay: overlay, GOARCH: goarch}
+	for _, prop := range props {
+		if _, ok := rules.Registry[prop]; !ok {
+			return nil, fmt.Errorf("no rule set registered for %s", prop)
+		}
+		meta := rules.Metas[prop]
+		o.NeedCG = o.NeedCG || meta.NeedCG
+		if meta.Ref && o.Ref == nil {
+			o.Ref = refPkgs()
+		}
 	}
-	meta := rules.Metas[prop]
-	o := core.LoadOpts{Repo: repo, NeedCG: meta.NeedCG, Overlay: overlay, GOARCH: goarch}
-	if meta.Ref {
-		o.Ref = refPkgs()
-	}
-	p, err = core.Load(o)
+	p, err := core.Load(o)
 	if err != nil {
-		return nil, nil, err
+		return nil, err
 	}
 	if len(p.Errors) > 0 {
-		return nil, p, fmt.Errorf("type errors in repository packages (no verdict): %s", strings.Join(p.Errors[:min(5, len(p.Errors))], "; "))
+		return p, fmt.Errorf("type errors in repository packages (no verdict): %s", strings.Join(p.Errors[:min(5, len(p.Errors))], "; "))
 	}
+	return p, nil
+}
+
+// runRules runs one property's rules on a loaded program. Panics in the analyser are failures (exit 2).
+func runRules(p *core.Prog, prop, tier string) (rep *core.Report, err error) {
 	rep = core.NewReport(prop, tier)
 	defer func() {
 		if e := recover(); e != nil {
@@ -92,8 +99,17 @@ func runProperty(prop, tier, repo string, overlay map[string][]byte, goarch stri
 		}
 	}()
 	c := rules.NewCtx(p, rep, tier)
-	fn(c)
-	return rep, p, nil
+	rules.Registry[prop](c)
+	return rep, nil
+}
+
+func runProperty(prop, tier, repo string, overlay map[string][]byte, goarch string) (*core.Report, *core.Prog, error) {
+	p, err := loadFor([]string{prop}, repo, overlay, goarch)
+	if err != nil {
+		return nil, p, err
+	}
+	rep, err := runRules(p, prop, tier)
+	return rep, p, err
 }
 
 func cmdCheck(args []string) int {
@@ -109,35 +125,55 @@ func cmdCheck(args []string) int {
 	if s := os.Getenv("VERIF_SEED"); s != "" {
 		seed, _ = strconv.ParseInt(s, 10, 64)
 	}
-	t0 := time.Now()
 	vd := verifDir()
-	rep, p, err := runProperty(*prop, *tier, *repo, nil, "")
+	props := strings.Split(*prop, ",")
+	if *prop == "all" {
+		props = nil
+		for k := range rules.Registry {
+			props = append(props, k)
+		}
+		sort.Strings(props)
+	}
+	tl := time.Now()
+	p, err := loadFor(props, *repo, nil, "")
 	if err != nil {
 		fmt.Fprintf(os.Stderr, "annverif: NO VERDICT for %s: %v\n", *prop, err)
 		return 2
 	}
-	meta := rules.Metas[*prop]
-	code := 0
-	if *tier == "thorough" {
-		code = thoroughExtras(*prop, *repo, rep)
-	}
+	loadS := time.Since(tl).Seconds()
 	known, err := core.LoadKnown(filepath.Join(vd, "known_findings.json"))
 	if err != nil {
 		fmt.Fprintf(os.Stderr, "annverif: cannot read known_findings.json: %v\n", err)
 		return 2
 	}
-	rep.Assume = append(rep.Assume, meta.Assume...)
-	info := map[string]interface{}{
-		"repo": *repo, "packages_loaded": len(p.AllPkgs), "functions": len(p.AllFuncs), "repo_functions": len(p.RepoFuncs()),
-		"load_s": p.LoadS, "build_config": "GOOS=linux GOARCH=amd64 cgo=on, non-test files",
-	}
-	if p.CG != nil {
-		info["callgraph"] = "VTA over CHA"
-		info["callgraph_nodes"] = len(p.CG.Nodes)
-	}
-	c := rep.Finish(core.FinishOpts{VerifDir: vd, Seed: seed, Level: meta.Level, Explain: meta.Explain, WallS: time.Since(t0).Seconds(), ProgInfo: info, Known: known})
-	if c > code {
-		code = c
+	code := 0
+	for _, pr := range props {
+		t0 := time.Now()
+		rep, err := runRules(p, pr, *tier)
+		if err != nil {
+			fmt.Fprintf(os.Stderr, "annverif: NO VERDICT for %s: %v\n", pr, err)
+			code = 2
+			continue
+		}
+		meta := rules.Metas[pr]
+		if *tier == "thorough" {
+			if c := thoroughExtras(pr, *repo, rep); c > code {
+				code = c
+			}
+		}
+		rep.Assume = append(rep.Assume, meta.Assume...)
+		info := map[string]interface{}{
+			"repo": *repo, "packages_loaded": len(p.AllPkgs), "functions": len(p.AllFuncs), "repo_functions": len(p.RepoFuncs()),
+			"load_s": p.LoadS, "build_config": "GOOS=linux GOARCH=amd64 cgo=on, non-test files",
+		}
+		if p.CG != nil {
+			info["callgraph"] = "VTA over CHA"
+			info["callgraph_nodes"] = len(p.CG.Nodes)
+		}
+		c := rep.Finish(core.FinishOpts{VerifDir: vd, Seed: seed, Level: meta.Level, Explain: meta.Explain, WallS: loadS + time.Since(t0).Seconds(), ProgInfo: info, Known: known})
+		if c > code {
+			code = c
+		}
 	}
 	return code
 }
